@@ -15,6 +15,7 @@ pub struct C12;
 thread_local! {
     /// joined file of the "outer" kind for the case being checked (kept out of the many call sites of `execute`)
     static OUTER_JOINED: std::cell::RefCell<Vec<u8>> = const { std::cell::RefCell::new(Vec::new()) };
+    static PIPE_INPUTS: std::cell::Cell<bool> = const { std::cell::Cell::new(false) };
 }
 
 const DEFS: &str = "CREATE TABLE raw(line = '(.*)', line[1] => x TEXT); CREATE TABLE j(line = '(.*)', line[1] => y TEXT);";
@@ -118,7 +119,8 @@ struct Run {
 impl C12 {
     #[allow(clippy::too_many_arguments)]
     fn execute(&self, out: &mut Outcome, label: &str, kind: &str, files: &[Vec<u8>], steps: &[Step], read_mode: &crate::seam::ReadMode, want_trace: bool, features: &J) -> Option<Run> {
-        let spec = if kind == "outer" {
+        let pipe = PIPE_INPUTS.with(|p| p.get());
+        let mut spec = if kind == "outer" {
             let joined = OUTER_JOINED.with(|j| j.borrow().clone());
             let mut s = batch_spec(DEFS, stmt_for(kind), files, Some(&joined));
             s.steps = steps.to_vec();
@@ -137,6 +139,7 @@ impl C12 {
             s.read_mode = read_mode.clone();
             s
         };
+        spec.pipe_inputs = pipe;
         let res = run(out, label, &spec, want_trace);
         if !usable(out, "c12", &res, features) {
             return None;
@@ -258,6 +261,8 @@ impl Property for C12 {
             "steps": steps_to_json(&steps),
             "read_mode": read_mode_to_json(&gen::gen_read_mode(rng)),
             "bad_style": rng.below(3),
+            // the inputs are pipes / FIFOs (what `--stdin` gives): no size in the metadata, not seekable
+            "pipe": rng.chance(1, 8),
             // outer kind: the joined file may be empty, hold only non-matching text, or hold partners for some lines
             "outer_joined": enc(["", "", "zzz-no-partner\n", "a\n", "a\nb\na\n"][rng.below(5)].as_bytes()),
         })
@@ -268,6 +273,7 @@ impl Property for C12 {
         let mut out = Vec::new();
         bytes_array_field(case, "files", &mut out);
         bytes_field(case, "outer_joined", &mut out);
+        bool_field(case, "pipe", false, &mut out);
         steps_field(case, "steps", &mut out);
         set_field(case, "read_mode", json!("bulk"), &mut out);
         set_field(case, "kind", json!("input"), &mut out);
@@ -282,6 +288,8 @@ impl Property for C12 {
         let variant = if kind == "outer" && jstr(case, "variant") != "concat" { "transparent".to_owned() } else { jstr(case, "variant") };
         let outer_joined = jbytes(case, "outer_joined");
         OUTER_JOINED.with(|j| *j.borrow_mut() = outer_joined.clone());
+        PIPE_INPUTS.with(|p| p.set(jbool(case, "pipe")));
+        out.probe("inputs_are_pipes", jbool(case, "pipe") as u64);
         let mut files = jbytes_list(case, "files");
         if files.is_empty() {
             out.invalid = Some("no files".to_owned());
